@@ -75,7 +75,7 @@ theorem pendOkW_append_slow {P : List Pend} {ns na : Nat} {rel : List Nat} {next
     | run a b => rw [hqk] at this; rw [this.1] at hqt; cases hqt
     | del j f => rw [hqk] at this; obtain ⟨n, hn, _⟩ := this; rw [hn] at hqt; cases hqt
     | cls j => rw [hqk] at this; obtain ⟨n, hn, _⟩ := this; rw [hn] at hqt; cases hqt
-    | upl a b c d => rw [hqk] at this; rw [this.1] at hqt; cases hqt
+    | upl a b c => rw [hqk] at this; rw [this.1] at hqt; cases hqt
   refine ⟨?_, ?_, ?_, ?_, ?_, ?_⟩
   · rw [List.map_append, List.nodup_append]
     refine ⟨h.tags, by simp, ?_⟩
@@ -97,7 +97,7 @@ theorem pendOkW_append_slow {P : List Pend} {ns na : Nat} {rel : List Nat} {next
       | run a b => rw [hqk] at this; exact ⟨this.1, this.2.1, by omega, this.2.2.2⟩
       | del j f => rw [hqk] at this; exact this
       | cls j => rw [hqk] at this; exact this
-      | upl a b c d => rw [hqk] at this; exact this
+      | upl a b c => rw [hqk] at this; exact this
     · simp at hq; subst hq
       refine ⟨rfl, by omega, Nat.le_refl _, ?_⟩
       intro hm; have := h.relLe _ hm; omega
